@@ -165,13 +165,33 @@ func build(c *vlib.Ctx, shape string) *scen {
 			return
 		}
 		e := gen(sim, idx)
+		var first *types.V2Transaction
+		if idx < 0 {
+			// ephemeral parent: an earlier transaction of the same block pays the output that is then spent
+			g := gen(sim, 2)
+			ft := types.V2Transaction{SiacoinInputs: []types.V2SiacoinInput{{Parent: g, SatisfiedPolicy: types.SatisfiedPolicy{Policy: k.Policy("A")}}},
+				SiacoinOutputs: []types.SiacoinOutput{{Value: cur(5000), Address: pol.Address()}}}
+			ft.SiacoinInputs[0].SatisfiedPolicy.Signatures = []types.Signature{k.SK("A").SignHash(sim.CS.InputSigHash(ft))}
+			first = &ft
+			e = ft.EphemeralSiacoinOutput(0)
+		}
 		txn := types.V2Transaction{
 			SiacoinInputs:  []types.V2SiacoinInput{{Parent: e, SatisfiedPolicy: types.SatisfiedPolicy{Policy: pol}}},
 			SiacoinOutputs: []types.SiacoinOutput{{Value: cur(2000), Address: k.Addr("B")}, {Value: cur(2990), Address: k.Addr("A")}},
 			MinerFee:       cur(10), ArbitraryData: []byte("arbitrary data of the payment"),
 		}
 		s.v2 = []types.V2Transaction{txn}
-		t := &s.v2[0]
+		if first != nil {
+			s.v2 = []types.V2Transaction{*first, txn}
+		}
+		t := &s.v2[len(s.v2)-1]
+		s.tamper["relabel-parent"] = func() bool {
+			// the parent is presented as belonging to another address, with that address's policy and signature
+			t.SiacoinInputs[0].Parent.SiacoinOutput.Address = k.Addr("X")
+			t.SiacoinInputs[0].SatisfiedPolicy = types.SatisfiedPolicy{Policy: k.Policy("X")}
+			t.SiacoinInputs[0].SatisfiedPolicy.Signatures = []types.Signature{k.SK("X").SignHash(sim.CS.InputSigHash(*t))}
+			return true
+		}
 		signWith := func(names []string) {
 			h := sim.CS.InputSigHash(*t)
 			var sigs []types.Signature
@@ -359,6 +379,8 @@ func build(c *vlib.Ctx, shape string) *scen {
 		}
 	case "v2pk":
 		v2pay(5, k.Custom["PK"], []string{"A"}, nil)
+	case "v2ephemeral":
+		v2pay(-1, k.Custom["PK"], []string{"A"}, nil)
 	case "v2uc":
 		v2pay(2, k.Policy("A"), []string{"A"}, nil)
 	case "v2thresh":
@@ -401,7 +423,7 @@ func build(c *vlib.Ctx, shape string) *scen {
 			return true
 		}
 		s.tamper["other-key"] = func() bool { signer = "X"; s.sign(); return true }
-	case "v2form", "v2rev", "v2renew", "v2attest":
+	case "v2form", "v2rev", "v2rev2", "v2renew", "v2attest":
 		contracts(c, s, shape)
 	}
 	if s.sign == nil {
